@@ -40,6 +40,10 @@ pub struct Case {
     pub max_workers: usize,
     /// extra random probe k-mers (seed)
     pub probe_seed: u64,
+    /// history on one thread: a different graph of the same shape is finished, queried and
+    /// then replaced IN THE SAME VARIABLE by the graph under test
+    #[serde(default)]
+    pub prior_graph: bool,
 }
 
 pub fn shuttle_config() -> Config {
@@ -149,13 +153,28 @@ pub fn build_base<K: Kmer + Send + Sync + 'static>(g: &GraphSpec) -> BaseGraph<K
     b
 }
 
-fn scenario<K: Kmer + Send + Sync + Serialize + DeserializeOwned + 'static>(base: &BaseGraph<K, u16>, extra: &[K], sh: &Mutex<Shared>) {
+fn scenario<K: Kmer + Send + Sync + Serialize + DeserializeOwned + 'static>(base: &BaseGraph<K, u16>, prior: Option<&BaseGraph<K, u16>>, extra: &[K], sh: &Mutex<Shared>) {
     rayon::reset_interleaving();
     // PCT's warm-up execution insists on seeing at least one step with two runnable tasks
     let warm = shuttle::thread::spawn(|| shuttle::thread::yield_now());
     shuttle::thread::yield_now();
     warm.join().unwrap();
-    let g1 = base.clone().finish();
+    let mut g1 = match prior {
+        Some(p) => {
+            // an earlier graph lives in this variable first and answers some lookups
+            let g0 = p.clone().finish_serial();
+            let pp = probes(&g0, &[]);
+            let mut acc = 0usize;
+            for k in pp.iter().take(96) {
+                acc += g0.find_link(*k, debruijn::Dir::Left).is_some() as usize + g0.find_link(*k, debruijn::Dir::Right).is_some() as usize;
+            }
+            std::hint::black_box(acc);
+            g0
+        }
+        None => BaseGraph::<K, u16>::new(base.stranded).finish_serial(),
+    };
+    rayon::reset_interleaving();
+    g1 = base.clone().finish();
     let il = rayon::interleaving();
     let g2 = base.clone().finish_serial();
     let g3 = base.clone().finish();
@@ -211,7 +230,20 @@ fn run_k<K: Kmer + Send + Sync + Serialize + DeserializeOwned + 'static>(c: &Cas
             kmer_from_bases::<K>(&b)
         })
         .collect();
+    let prior: Option<BaseGraph<K, u16>> = if c.prior_graph {
+        let mut spec = c.graph.clone();
+        for r in spec.reads.iter_mut() {
+            *r = simcore::dna::rc(r);
+        }
+        for n in spec.direct_nodes.iter_mut() {
+            n.0 = simcore::dna::rc(&n.0);
+        }
+        Some(build_base::<K>(&spec))
+    } else {
+        None
+    };
     let base = Arc::new(base);
+    let prior = Arc::new(prior);
     let extra = Arc::new(extra);
     let sh = Arc::new(Mutex::new(Shared::default()));
     rayon::set_max_workers(c.max_workers);
@@ -226,9 +258,9 @@ fn run_k<K: Kmer + Send + Sync + Serialize + DeserializeOwned + 'static>(c: &Cas
     );
     let slog: Option<ScheduleLog> = if rec.recording() { Some(Arc::new(Mutex::new(Vec::new()))) } else { None };
     {
-        let (base, extra, sh) = (base.clone(), extra.clone(), sh.clone());
+        let (base, prior, extra, sh) = (base.clone(), prior.clone(), extra.clone(), sh.clone());
         let (sched, seed, n, sl) = (c.sched.clone(), c.sched_seed, c.executions, slog.clone());
-        let r = simcore::driver::guarded(move || run_batch(&sched, seed, n, sl, move || scenario::<K>(&base, &extra, &sh)));
+        let r = simcore::driver::guarded(move || run_batch(&sched, seed, n, sl, move || scenario::<K>(&base, prior.as_ref().as_ref(), &extra, &sh)));
         if let Some(l) = &slog {
             note_schedules(rec, l);
         }
@@ -299,6 +331,7 @@ impl Harness for C19 {
             executions: if big { 2 } else { 4 },
             max_workers: *rng.pick(&[1usize, 2, 2, 3, 4, 4, 8, 16]),
             probe_seed: rng.next_u64(),
+            prior_graph: rng.chance(1, 4),
         }
     }
     fn run(&self, c: &Case, rec: &mut Rec) -> Result<(), Violation> {
@@ -317,6 +350,11 @@ impl Harness for C19 {
     }
     fn shrink(&self, c: &Case) -> Vec<Case> {
         let mut out = Vec::new();
+        if c.prior_graph {
+            let mut x = c.clone();
+            x.prior_graph = false;
+            out.push(x);
+        }
         if c.executions > 1 {
             let mut x = c.clone();
             x.executions = c.executions / 2;
@@ -378,7 +416,7 @@ pub fn nondet_selftest(seed: u64, n_cases: u64) -> i32 {
         let (b2, s2) = (base.clone(), sh.clone());
         let r = simcore::driver::guarded(move || {
             let sched = UncontrolledNondeterminismCheckScheduler::new(RandomScheduler::new_from_seed(c.sched_seed, 3));
-            Runner::new(sched, shuttle_config()).run(move || scenario::<Kmer6>(&b2, &[], &s2));
+            Runner::new(sched, shuttle_config()).run(move || scenario::<Kmer6>(&b2, None, &[], &s2));
         });
         execs += sh.lock().unwrap().executions;
         if let Err((loc, msg)) = r {
